@@ -237,6 +237,12 @@ class DescriptorTransaction(_TransactionBase):
         if descriptor_handle in self.descriptor_updates:
             msg = f'Entity {descriptor_handle} already in updated set!'
             raise ValueError(msg)
+        if entity.is_multi_state:
+            for state_container in entity.states.values():
+                existing = self._mdib.context_states.handle.get_one(state_container.Handle, allow_none=True)
+                if existing is not None and existing.DescriptorHandle != descriptor_handle:
+                    msg = f'ContextState with handle={state_container.Handle} already exists for {existing.DescriptorHandle}'
+                    raise ValueError(msg)
 
         tmp_descriptor = copy.deepcopy(entity.descriptor)
         orig_descriptor_container = self._mdib.descriptions.handle.get_one(descriptor_handle, allow_none=True)
@@ -829,6 +835,9 @@ class ContextStateTransaction(_TransactionBase):
                 continue
             if not state_container.is_context_state:
                 raise ApiUsageError('Transaction only handles context states!')
+            if old_state is not None and old_state.DescriptorHandle != entity.handle:
+                msg = f'ContextState with handle={handle} already exists for {old_state.DescriptorHandle}'
+                raise ValueError(msg)
 
             tmp = copy.deepcopy(state_container)
             # refer to the descriptor of this mdib, not to the copy that came with the entity
